@@ -202,8 +202,8 @@ impl VObjectModel {
     const LOS: VMLocalLOSMarkNurserySpec = VMLocalLOSMarkNurserySpec::side_after(Self::MARK.as_spec());
 }
 
-/// feature `hdr_specs`: forwarding bits (bits 0-1), mark bit (bit 2) and log bit (bit 3) live in the
-/// header word at `ref+0`; LOS mark/nursery and pinning bits stay on the side.
+/// feature `hdr_specs`: forwarding bits (bits 0-1) and log bit (bit 3) live in the header word at
+/// `ref+0`; mark, LOS mark/nursery and pinning bits stay on the side.
 /// With `unified_ref` that word is also the forwarding pointer (whose low 3 bits are free), so the
 /// log bit stays on the side in that combination.
 #[cfg(feature = "hdr_specs")]
@@ -213,13 +213,15 @@ impl VObjectModel {
     #[cfg(feature = "unified_ref")]
     const LOG: VMGlobalLogBitSpec = VMGlobalLogBitSpec::side_first();
     const FWD_BITS: VMLocalForwardingBitsSpec = VMLocalForwardingBitsSpec::in_header(0);
-    const MARK: VMLocalMarkBitSpec = VMLocalMarkBitSpec::in_header(2);
+    // NOTE: an in-header mark bit is rejected by ImmixSpace ("cyclic mark bits is not supported",
+    // immixspace.rs prepare) and every plan owns an ImmixSpace (the nonmoving space): mark stays on the side.
+    const MARK: VMLocalMarkBitSpec = VMLocalMarkBitSpec::side_first();
     #[cfg(feature = "has_pinning")]
-    const PIN: VMLocalPinningBitSpec = VMLocalPinningBitSpec::side_first();
+    const PIN: VMLocalPinningBitSpec = VMLocalPinningBitSpec::side_after(Self::MARK.as_spec());
     #[cfg(feature = "has_pinning")]
     const LOS: VMLocalLOSMarkNurserySpec = VMLocalLOSMarkNurserySpec::side_after(Self::PIN.as_spec());
     #[cfg(not(feature = "has_pinning"))]
-    const LOS: VMLocalLOSMarkNurserySpec = VMLocalLOSMarkNurserySpec::side_first();
+    const LOS: VMLocalLOSMarkNurserySpec = VMLocalLOSMarkNurserySpec::side_after(Self::MARK.as_spec());
 }
 
 impl ObjectModel<VerifVM> for VObjectModel {
